@@ -7,6 +7,7 @@ import (
 	"os/exec"
 	"path/filepath"
 	"regexp"
+	"runtime/debug"
 	"sort"
 	"strconv"
 	"strings"
@@ -179,6 +180,23 @@ func record(r Round, o *outcome) {
 	}
 }
 
+// runGuarded runs one round; a panic on the round's own goroutine (construction, I/O set-up,
+// post-close operations outside an explicit guard) is a verdict like any other recovered panic.
+func (c *component) runGuarded(r Round) (o *outcome) {
+	defer func() {
+		if p := recover(); p != nil {
+			st := string(debug.Stack())
+			o = &outcome{}
+			fr := topRepoFrame(st)
+			if fr == "unknown-frame" {
+				panic(p) // not inside the code under test: harness bug, let it surface
+			}
+			o.failf(fmt.Sprintf("C16/%s/panic/round-setup-or-teardown/%s", c.name, fr), "panic: %v\n%s", p, trimStack(st))
+		}
+	}()
+	return c.run(r)
+}
+
 func (c *component) child(t *testing.T) {
 	sidePath = os.Getenv("C16_SIDE")
 	side = &sideRec{Test: t.Name(), Cases: map[string]int{}, Classes: map[string]int{}, Extra: map[string]int64{},
@@ -221,7 +239,7 @@ func (c *component) child(t *testing.T) {
 		}
 		idx++
 		journal(t.Name(), idx, r)
-		o := c.run(r)
+		o := c.runGuarded(r)
 		record(r, o)
 		if time.Since(lastFlush) > 500*time.Millisecond {
 			flushSide()
